@@ -272,6 +272,39 @@ func c18(c *ev.Ctx) {
 			}
 		}
 	}
+	// loops that never leave, with a constant condition the optimizer removes and a body that may be
+	// empty, after code the optimizer shortens: the back jump must still land on an instruction
+	// (these are verified, and run only for a few thousand instructions)
+	{
+		prefixes := []string{"", "x = 1 + 2 + 3; ", "x = 1 + 2; ", "x = 2 * 3 - 1; y = 4 / 2; ", "if (false) { t(1); } ", "x = 1 + 2; if (1 == 2) { t(1); } else { y = 3 * 3; } ", "x = \"a\"; x = 1 + 1 + 1 + 1 + 1 + 1 + 1 + 1; "}
+		loops := []string{"while (true) { }", "while (1 == 1) { }", "for (true) { }", "while (1) { }", "while (2 > 1) { }", "while (true) { while (true) { } }", "while (true) { x = 1 + 1; }", "while (true) { if (false) { t(1); } }", "while (true) { } while (true) { }"}
+		places := []string{"%s%s return x;", "%sif (x) { %s } return false;", "function f() { %s%s } f(); return 1;", "%sforeach e in [1] { %s } return 2;", "%sif (C) { y = 2 + 2; %s } else { %s } return 3;", "%sswitch (C) { case 1 { %s } } return 4;"}
+		for pi, pre := range prefixes {
+			for li, lp := range loops {
+				for pl, place := range places {
+					id := fmt.Sprintf("boundary:endless-loop-%d-%d-%d", pi, li, pl)
+					if !c.Want(id) {
+						continue
+					}
+					args := []interface{}{pre, lp}
+					if strings.Count(place, "%s") == 3 {
+						args = append(args, lp)
+					}
+					script := fmt.Sprintf(place, args...)
+					_, instrs := c18Check(c, id, "endless loop after foldable code", script)
+					c.Count("instructions_verified", instrs)
+					c.Count("endless_loop_programs", 1)
+					c.Case(script, true)
+					if evr, err := eng.New(script, eng.Options{Budget: 3000}); err == nil {
+						ob := evr.Exec(map[string]interface{}{"C": 1})
+						if s := isInternalError(ob.Err); s != "" {
+							c.Violation(id, "endless loop internal error", map[string]interface{}{"summary": fmt.Sprintf("run failed with internal error %q", ob.Err), "script": script})
+						}
+					}
+				}
+			}
+		}
+	}
 	// oversize programs: either rejected by Prepare or verified sound (never accepted with truncated operands)
 	for _, stmts := range []int{9400, 12000} {
 		id := fmt.Sprintf("boundary:oversize-%d", stmts)
